@@ -275,5 +275,9 @@ def rules(ctx):
     refusals(ctx)
     tie_prefilter(ctx)
     bisection_rules(ctx)
+    from . import formulas
+    before = len(ctx.obligations)
+    formulas.tour_formulas(ctx, "R3")
+    ctx.obligations[before:] = [o for o in ctx.obligations[before:] if "reference-time" in o.id]
     from .C13 import tour_vanishes_rule
     tour_vanishes_rule(ctx, "R2")
